@@ -195,6 +195,13 @@ def main(run: core.Run) -> None:
         stats.update(sstats)
     sf = c01.split_known(run, sf, findings)
     c01.verdict(run, audit, stats, features, ties, sf, "C02", PROP_MODULES, refusals)
+    c01.require_coverage(stats, features,
+                         ["export_ties", "verified_wf_checks_on_real_protos", "model_protos_checked",
+                          "near_miss_programs", "refused_TranslationError", "refused_ValueError", "refused_SyntaxError",
+                          "near_miss_loop-without-state", "near_miss_return-not-last",
+                          "near_miss_loop-var-read-after-loop", "near_miss_mixed-opset-in-branch", "corpus_programs"],
+                         ["subscript", "sibling-subgraphs", "sibling-for", "sibling-while", "sibling-if",
+                          "user-names-like-generated", "for", "while"])
     gen_refused = stats["refused"] - stats.get("near_miss_programs", 0) + sum(
         1 for f in sf if f.get("near_miss_accepted"))
     if stats["programs"] >= 20 and gen_refused > 0.3 * max(1, stats["programs"] - stats.get("near_miss_programs", 0)):
